@@ -70,7 +70,7 @@ type Contract struct {
 func (c *Contract) Key() string { return c.Pkg + "." + c.Func }
 
 var clauseKW = map[string]bool{
-	"func": true, "iface": true, "type": true, "lemma": true, "predicate": true, "panic_invariant": true, "rac_ensures": true, "reset_first": true, "property": true, "requires": true, "ensures": true,
+	"func": true, "iface": true, "type": true, "lemma": true, "predicate": true, "axiom": true, "panic_invariant": true, "rac_ensures": true, "reset_first": true, "property": true, "requires": true, "ensures": true,
 	"panics_if": true, "panics_only_if": true, "panics_iff": true, "maypanic": true, "modifies": true,
 	"let": true, "loop": true, "invariant": true, "decreases": true, "inline": true, "trusted": true,
 	"recover": true, "bounded_view": true, "end": true, "defines": true, "view": true, "split": true, "establishes": true, "owns": true,
@@ -85,6 +85,7 @@ type Predicate struct {
 }
 
 type ContractSet struct {
+	Axioms []Clause              // assumed facts (about regular expressions etc.); Label = package
 	Preds  map[string]*Predicate // key pkg.name
 	Funcs  map[string]*Contract // key pkg.Func
 	Ifaces map[string]*Contract // key pkg.Iface.Method
@@ -136,7 +137,7 @@ func parseContractText(text, path, pkg string, cs *ContractSet) error {
 		fields := strings.Fields(body)
 		kw := fields[0]
 		if clauseKW[kw] {
-			if kw == "func" || kw == "iface" || kw == "type" || kw == "lemma" || kw == "predicate" {
+			if kw == "func" || kw == "iface" || kw == "type" || kw == "lemma" || kw == "predicate" || kw == "axiom" {
 				flush()
 			}
 			cur = append(cur, rawClause{kw, strings.TrimSpace(body[len(kw):]), i + 1})
@@ -152,6 +153,14 @@ func parseContractText(text, path, pkg string, cs *ContractSet) error {
 	for _, b := range blocks {
 		head := b[0]
 		c := &Contract{Pkg: pkg, File: base, Line: head.line, Loops: map[int]*LoopContract{}}
+		if head.kw == "axiom" {
+			txt := head.text
+			for _, rc := range b[1:] {
+				txt += " " + rc.kw + " " + rc.text
+			}
+			cs.Axioms = append(cs.Axioms, Clause{Text: strings.TrimSpace(txt), File: base, Line: head.line, Label: pkg})
+			continue
+		}
 		if head.kw == "predicate" {
 			txt := head.text
 			for _, rc := range b[1:] {
